@@ -228,6 +228,10 @@ def replayLine (s : DState) (op : String) (mid : Nat) (args : List String) (orc 
       match parsePred p with
       | none => .bad "pred"
       | some p => finF (resolveEmptF (fun e => Map.retainFusedOut m p fuse { o with empt := e }) glObs)
+  | "fdrainfilter", [p, fuse] => nat fuse fun fuse => needMap fun m =>
+      match parsePred p with
+      | none => .bad "pred"
+      | some p => finF (resolveEmptF (fun e => Map.drainFilterFusedOut m p fuse { o with empt := e }) glObs)
   | "freplace", [k, kid] => nat k fun k => nat kid fun kid => needMap fun m =>
       finF (resolveEmptF (fun e => Map.replaceFusedOut m k kid { o with empt := e }) glObs)
   | "drop", [] => needMap fun m =>
